@@ -48,6 +48,7 @@ type Engine struct {
 	usedImmutable map[string]bool
 	ghostTypes map[string]types.Type
 	lastValueNames []string
+	curInstr ssa.Instruction
 
 	MaxPaths int
 	Tier     string
@@ -309,7 +310,7 @@ func (E *Engine) installAxioms() (err error) {
 			panic(r)
 		}
 	}()
-	E.cur = &fnCtx{key: "axioms", compSort: map[string]string{}, touched: map[string]bool{}}
+	E.cur = &fnCtx{key: "axioms", compSort: map[string]string{}, touched: map[string]bool{}, compPtr: map[string]bool{}, factSeen: map[string]bool{}}
 	for _, cl := range E.CS.Axioms {
 		ev := &cenv{E: E, ctx: cl.Ctx, vars: map[string]*Val{}, heap: map[string]string{}}
 		body := ev.evalBool(cl.Expr)
